@@ -157,10 +157,8 @@ def _sde(case, R):
         driver = W.build_model(dspec)
     else:
         dspec = W.gen_copula_model_spec(rng, dim=2, kind=str(rng.choice(["clayton", "independent"])))
+        W.limit_variation(rng, dspec, allow_infinite=bool(rng.random() < 0.3), y_hi=0.7)
         for ms in dspec["margins"]:
-            if ms["family"] == "CGMY" and ms["params"]["y"] >= 1.0:
-                ms["params"]["y"] = 0.5
-                ms["branch"] = "0<y<1"
             if ms["family"] == "MERTON":
                 ms["params"]["sigma_j"] = max(ms["params"]["sigma_j"], 0.08)
         driver = W.build_copula_model(dspec)
